@@ -169,6 +169,75 @@ def c04(args):
     return {'reproduced': bool(bad), 'detail': [str(b) for b in bad[:5]]}
 
 
+def c11(args):
+    """AdjointSDE.f / g_prod / f_and_g_prod against the adjoint system written with per-column scalar functions and autograd.grad."""
+    from torchsde._core.base_sde import ForwardSDE
+    from torchsde._core.adjoint_sde import AdjointSDE
+    from torchsde._core import misc
+    bad = []
+    for st in ('ito', 'stratonovich'):
+        for noise in ('diagonal', 'scalar', 'additive', 'general'):
+            d, Bn = 2, 3
+            m = noise_m(noise, d)
+
+            class P(SDE):
+                def __init__(self):
+                    super().__init__(noise, st, d)
+                    self.b = torch.nn.Parameter(torch.tensor(0.7))
+
+                def g(self, t, y):
+                    return super().g(t, y) * self.b
+            sde = P().double()
+            fs = ForwardSDE(sde)
+            params = list(sde.parameters())
+            gen = torch.Generator().manual_seed(3)
+            y = torch.rand(Bn, d, generator=gen, dtype=torch.float64)
+            a = torch.rand(Bn, d, generator=gen, dtype=torch.float64)
+            v = torch.rand(Bn, m, generator=gen, dtype=torch.float64)
+            shapes = [y.shape, a.shape] + [p_.shape for p_ in params]
+            adj = AdjointSDE(fs, params, shapes)
+            y_aug = misc.flatten([y, a] + [torch.zeros_like(p_) for p_ in params]).unsqueeze(0)
+            t = torch.tensor(-0.3, dtype=torch.float64)       # adjoint time; forward time is -t
+
+            def G3(yy):
+                g = sde.g(-t, yy)
+                return torch.diag_embed(g) if noise == 'diagonal' else g
+            yl = y.clone().requires_grad_()
+            f = sde.f(-t, yl)
+            g3 = G3(yl)
+
+            def grads(scalar):
+                r = torch.autograd.grad(scalar, [yl] + params, allow_unused=True, retain_graph=True)
+                return [torch.zeros_like(x) if r_ is None else r_ for r_, x in zip(r, [yl] + params)]
+            if st == 'ito' and noise != 'additive':
+                # sum_j (d g_j / d y) g_j, with the Jacobian of column j built row by row
+                corr = sum(torch.stack([torch.autograd.grad(g3[b, k, j], yl, retain_graph=True, create_graph=True)[0][b]
+                                        for b in range(Bn) for k in range(d)]).reshape(Bn, d, d).matmul(g3[..., j].unsqueeze(-1)).squeeze(-1)
+                           for j in range(m))
+                ftil = f - corr
+            else:
+                ftil = f
+            want_f = [-ftil.detach()] + grads((a * ftil).sum())
+            if st == 'ito' and noise != 'additive':
+                for j in range(m):
+                    cj = torch.autograd.grad((a * g3[..., j]).sum(), yl, retain_graph=True)[0].detach()
+                    extra = grads((cj * g3[..., j]).sum())
+                    want_f = [want_f[0]] + [w_ + e_ for w_, e_ in zip(want_f[1:], extra)]
+            gv = torch.einsum('bij,bj->bi', g3, v)
+            want_g = [-gv.detach()] + grads((a * gv).sum())
+            want_f = misc.flatten(want_f)
+            want_g = misc.flatten(want_g)
+            got_f = adj.f(t, y_aug).reshape(-1)
+            got_g = adj.g_prod(t, y_aug, v).reshape(-1)
+            got_f2, got_g2 = adj.f_and_g_prod(t, y_aug, v)
+            for nm, got, want in (('f', got_f, want_f), ('g_prod', got_g, want_g), ('f_and_g_prod[0]', got_f2.reshape(-1), want_f),
+                                  ('f_and_g_prod[1]', got_g2.reshape(-1), want_g)):
+                err = (got.detach() - want).abs().max().item()
+                if err > 1e-9:
+                    bad.append((st, noise, nm, err))
+    return {'reproduced': bool(bad), 'detail': [str(b) for b in bad[:8]]}
+
+
 def c09(args):
     """Adjoint gradients against backpropagation through the same solver on the same Brownian path at a fine step (both converge to the
     true gradient), for every adjoint method the documentation admits; plus equal forward values."""
@@ -871,7 +940,7 @@ def c16(args):
     return {'reproduced': bool(bad), 'detail': [str(b) for b in bad[:6]]}
 
 
-RECIPES = {'c04': c04, 'c09': c09, 'c01': c01, 'c16rename': c16rename, 'c19adj': c19adj, 'c15': c15, 'c17': c17, 'c20': c20, 'c08': c08, 'c18': c18, 'c14': c14, 'c07': c07, 'c19': c19, 'c16': c16, 'c10': c10, 'c03': c03, 'c06': c06, 'history': history, 'linear_interp': linear_interp, 'c12': c12, 'c13': c13}
+RECIPES = {'c11': c11, 'c04': c04, 'c09': c09, 'c01': c01, 'c16rename': c16rename, 'c19adj': c19adj, 'c15': c15, 'c17': c17, 'c20': c20, 'c08': c08, 'c18': c18, 'c14': c14, 'c07': c07, 'c19': c19, 'c16': c16, 'c10': c10, 'c03': c03, 'c06': c06, 'history': history, 'linear_interp': linear_interp, 'c12': c12, 'c13': c13}
 
 if __name__ == '__main__':
     name = sys.argv[1]
